@@ -44,6 +44,7 @@ def build():
     lkids = lib.fn("lkids", [REF], SR)
     lkidsf = lib.fn("lkidsf", [REF], SC)
     sf = world.spec_fns
+    sf["is_in"] = lambda s_, x: VBool(z3.Contains(SR.coerce(s_).term, z3.Unit(nv.ref(x))))
     sf.update({"lkids": lkids, "lkidsf": lkidsf,
                "mget": lambda mp, k: VOpt(z3.Select(mp.term, mp.sort.key.coerce(k).term), mp.sort.opt),
                "mdel": lambda mp, k: VMap(z3.Store(mp.term, mp.sort.key.coerce(k).term, mp.sort.opt.none().term), mp.sort),
@@ -344,6 +345,7 @@ def build():
     REJ = f"(mget(old(NODES), self.id) == self and mget(old(PID), self) is not None and mget(old(NODES), mget(old(PID), self)) is not None)"
     for variant in (None, "callee"):
         A(Contract(f"{LM}:AwareASTNode.detach", variant_of=variant, params={"self": "Ref", "only_self": "bool"}, returns="bool", props=PB, globals=G,
+                   ghost={"r": "Ref"},
                    modifies=["NODES", "PID", "PF", "PI", "XP"], trusted=variant is not None,
                    trusted_reason="proved below; at the recursive calls it is the induction hypothesis (on the height of the tree)" if variant else "",
                    ensures=[f"result == (not {REJ})",
@@ -351,11 +353,21 @@ def build():
                             "implies(mget(old(NODES), self.id) != self, NODES == old(NODES) and PID == old(PID) and PF == old(PF) and PI == old(PI) and XP == old(XP))",
                             "implies(result and mget(old(NODES), self.id) == self, mget(NODES, self.id) is None)",
                             "only_subtree_ids_changed(NODES, old(NODES), self)",
-                            "implies(result and mget(old(NODES), self.id) == self, all_parent_ids_cleared(PID, lkids(self)))"] + SHRINK,
+                            "implies(result and mget(old(NODES), self.id) == self, all_parent_ids_cleared(PID, lkids(self)))",
+                            # exact effect of the non-recursive form, pointwise for an arbitrary node r
+                            "implies(only_self and result and mget(old(NODES), self.id) == self, NODES == mdel(old(NODES), self.id))",
+                            "implies(only_self and result and mget(old(NODES), self.id) == self and is_in(lkids(self), r), "
+                            "mget(PID, r) is None and mget(PF, r) is None and mget(PI, r) is None and mget(XP, r) is None)",
+                            "implies(only_self and not is_in(lkids(self), r), "
+                            "mget(PID, r) == mget(old(PID), r) and mget(PF, r) == mget(old(PF), r) and mget(PI, r) == mget(old(PI), r) and mget(XP, r) == mget(old(XP), r))"] + SHRINK,
                    requires=["implies(not only_self, acyclic_ids(self))"],
                    loops={1: Loop(inv=["shrinks_n(NODES, old(NODES))", "shrinks_p(PID, old(PID))", "shrinks_f(PF, old(PF))", "shrinks_i(PI, old(PI))",
                                        "mget(NODES, self.id) == self", "only_subtree_ids_changed(NODES, old(NODES), self)", "all_parent_ids_cleared(PID, done1)",
-                                       "implies(not only_self, no_child_subtree_has_id(seq1, self.id) and all_acyclic_ids(seq1))", "seq1 == lkids(self)"])} if variant is None else {},
+                                       "implies(not only_self, no_child_subtree_has_id(seq1, self.id) and all_acyclic_ids(seq1))", "seq1 == lkids(self)",
+                                       "implies(only_self, NODES == old(NODES))",
+                                       "implies(only_self and is_in(done1, r), mget(PID, r) is None and mget(PF, r) is None and mget(PI, r) is None and mget(XP, r) is None)",
+                                       "implies(only_self and not is_in(done1, r), mget(PID, r) == mget(old(PID), r) and mget(PF, r) == mget(old(PF), r) "
+                                       "and mget(PI, r) == mget(old(PI), r) and mget(XP, r) == mget(old(XP), r))"])} if variant is None else {},
                    note="a node that still has a registered parent is refused (False) and nothing changes; a detached node is left alone (True, nothing changes); an attached root is "
                         "unregistered; every effect is a removal: no registry entry and no parent slot is ever added or redirected (shrinks_*), and only entries of ids of the "
                         "node's own tree are touched. Precondition of the recursive form: no proper descendant carries the node's own id (ids hash the children's ids, so this is "
@@ -374,9 +386,15 @@ def build():
         world._in_detach_body = True
 
     reg.contracts[f"{LM}:AwareASTNode.detach"].setup = setup_detach
-    A(Contract(f"{LM}:AwareASTNode.detach_self", params={"self": "Ref"}, returns="bool", props=PB, globals=G, modifies=["NODES", "PID", "PF", "PI", "XP"],
-               ensures=[f"result == (not {REJ})", "implies(not result, NODES == old(NODES) and PID == old(PID) and PF == old(PF) and PI == old(PI) and XP == old(XP))"] + SHRINK,
-               setup=setup_detach))
+    A(Contract(f"{LM}:AwareASTNode.detach_self", params={"self": "Ref"}, returns="bool", props=PB, globals=G, modifies=["NODES", "PID", "PF", "PI", "XP"], ghost={"r": "Ref"},
+               ensures=[f"result == (not {REJ})", "implies(not result, NODES == old(NODES) and PID == old(PID) and PF == old(PF) and PI == old(PI) and XP == old(XP))",
+                        "implies(result and mget(old(NODES), self.id) == self, NODES == mdel(old(NODES), self.id))",
+                        "implies(result and mget(old(NODES), self.id) == self and is_in(lkids(self), r), "
+                        "mget(PID, r) is None and mget(PF, r) is None and mget(PI, r) is None and mget(XP, r) is None)",
+                        "implies(not is_in(lkids(self), r), "
+                        "mget(PID, r) == mget(old(PID), r) and mget(PF, r) == mget(old(PF), r) and mget(PI, r) == mget(old(PI), r) and mget(XP, r) == mget(old(XP), r))"] + SHRINK,
+               setup=setup_detach,
+               note="the non-recursive detach: exactly the node's registry entry goes and exactly its children's four slots are reset (pointwise for an arbitrary node r)"))
     # ---- attach -------------------------------------------------------------------------------------------------------------------
     from pyvc.values import rec_sort
     PAIR = rec_sort("NodePair", [("child", REF), ("parent", REF)], tuple_like=True)
@@ -385,7 +403,7 @@ def build():
 
     def extend_instances(formulas):
         out, seen, stack = [], set(), list(formulas)
-        apps, keys, stores = [], {}, {}
+        apps, keys, stores, allmaps = [], {}, {}, {}
         while stack:
             f = stack.pop()
             if not z3.is_app(f) or f.get_id() in seen:
@@ -393,6 +411,8 @@ def build():
             seen.add(f.get_id())
             if f.decl().name() == "extends_n":
                 apps.append(f)
+            if f.sort() == NM.z3() and z3.is_const(f):
+                allmaps[f.get_id()] = f
             if f.decl().kind() in (z3.Z3_OP_STORE, z3.Z3_OP_SELECT) and f.arg(0).sort() == NM.z3():
                 keys[f.arg(1).get_id()] = f.arg(1)
             if f.decl().kind() == z3.Z3_OP_STORE and f.sort() == NM.z3():
@@ -414,6 +434,14 @@ def build():
             for ap in apps:
                 if ap.arg(0).eq(st.arg(0)):                                                                          # E-add: storing at a key that was free in the base
                     emit(z3.Implies(z3.And(ap, z3.Select(ap.arg(1), st.arg(1)) == none_n, z3.Select(st.arg(0), st.arg(1)) == none_n), ext_n(st, ap.arg(1))))
+        for st in stores.values():
+            for ap in apps:
+                lo = ap.arg(1)
+                if ap.arg(0).eq(st.arg(0)):
+                    # E-restore: the base extends `orig minus k`; putting orig's own entry back under k extends orig
+                    for o in allmaps.values():
+                        if not o.eq(lo) and not o.eq(st):
+                            emit(z3.Implies(z3.And(ap, lo == z3.Store(o, st.arg(1), none_n), st.arg(2) == z3.Select(o, st.arg(1))), ext_n(st, o)))
         for a in apps:
             for b in apps:
                 if a.arg(1).eq(b.arg(0)):
@@ -466,6 +494,130 @@ def build():
                setup=setup_attach,
                note="an attached node is left alone (nothing changes); otherwise on return the node is registered and the registry has only grown; "
                     "a detached node whose id is taken by another object is rejected with nothing changed"))
+    # ---- replace(): forbidden keys are rejected before any effect; a rejected construction is rolled back ---------------------------
+    KW = __import__("pyvc.values", fromlist=["usort"]).usort("Kwargs")
+    keys_allowed = z3.Function("change_keys_allowed", KW.z3(), REF.z3(), z3.BoolSort())
+    orig_id = z3.Function("node_original_id", REF.z3(), OSTR.z3())
+    sf["change_keys_allowed"] = lambda kw_, n: VBool(keys_allowed(kw_.term, nv.ref(n)))
+    points_back = lib.fn("children_point_back", [PM, FM, IM, REF, SC], BOOL)
+    idx = lambda c: CPOS.get(CPOS.wrap(c).term, "index").term
+    fld = lambda c: CPOS.get(CPOS.wrap(c).term, "field").term
+    OI = IM.opt
+    points_back.rule("points_back-empty", 4, "empty")(lambda a, p: z3.BoolVal(True))
+    points_back.rule("points_back-snoc", 4, "snoc")(lambda a, p: z3.And(points_back.t(a[0], a[1], a[2], a[3], p[0]),
+                                                                      z3.Select(a[0], ch(p[1])) == PM.opt.some(STR.wrap(nv.f_id(a[3]))).term,
+                                                                      z3.Select(a[1], ch(p[1])) == FM.opt.some(FLD.wrap(fld(p[1]))).term,
+                                                                      z3.Select(a[2], ch(p[1])) == idx(p[1])))
+    points_back.rule("points_back-prefix", 4, "concat", "lemma", raw=True)(
+        lambda a, p: z3.Implies(points_back.t(a[0], a[1], a[2], a[3], z3.Concat(p[0], p[1])), points_back.t(a[0], a[1], a[2], a[3], p[0])))
+    has_child = lib.fn("has_child_node", [SC, REF], BOOL)
+    has_child.rule("has_child-empty", 0, "empty")(lambda a, p: z3.BoolVal(False))
+    has_child.rule("has_child-snoc", 0, "snoc")(lambda a, p: z3.Or(has_child.t(p[0], a[1]), ch(p[1]) == a[1]))
+    sf.update({"children_point_back": points_back, "has_child_node": has_child})
+
+    def attr_r(m, obj, name):
+        if isinstance(obj, VU) and obj.sort == KW and name == "keys":
+            return VBound(obj, "keys")
+        if isinstance(obj, VPy) and isinstance(obj.obj, tuple) and obj.obj[0] == "nameset" and name == "issubset":
+            return VBound(obj, "issubset")
+        if isinstance(obj, VU) and obj.sort == REF and name in ("original_id", "id_collision_with") and not m.spec:
+            return VOpt(orig_id(obj.term), OSTR) if name == "original_id" else VOpt(z3.Const(fresh_name("id_collision_with"), OSTR.z3()), OSTR)
+        return None
+
+    def call_r(m, func, a, kw, nd):
+        if m.contract.qualname != "AwareASTNode.replace":
+            return NotImplemented
+        if isinstance(func, VPy) and func.obj == ("builtin", "set") and len(a) == 1:
+            if isinstance(a[0], VPy) and isinstance(a[0].obj, tuple) and a[0].obj[0] == "genexp":
+                return VPy(("nameset", "allowed"))
+            if isinstance(a[0], VPy) and isinstance(a[0].obj, tuple) and a[0].obj[0] == "kwkeys":
+                return VPy(("nameset", "changes", a[0].obj[1]))
+        if isinstance(func, VBound) and isinstance(func.recv, VU) and func.recv.sort == KW and func.name == "keys":
+            return VPy(("kwkeys", func.recv))
+        if isinstance(func, VBound) and isinstance(func.recv, VPy) and func.name == "issubset":
+            chg, allowed = func.recv.obj, a[0].obj
+            if chg[:2] == ("nameset", "changes") and allowed == ("nameset", "allowed"):
+                return VBool(keys_allowed(chg[2].term, m.env["self"].term))
+            raise EngineError("issubset on other sets")
+        if isinstance(func, VPy) and func.obj == ("builtin", "list") and len(a) == 1 and isinstance(a[0], VPy) and isinstance(a[0].obj, tuple) and a[0].obj[0] == "nameset":
+            return VPy(("names",))
+        if isinstance(func, VCls) and func.name == "ASTNodeReplaceError":
+            return VExc("ASTNodeReplaceError")
+        if isinstance(func, VPy) and func.obj == ("builtin", "replace"):
+            # dataclasses.replace -> the constructor: may reject (assumed here: a rejected construction leaves the heap as it found it, which is C19 for
+            # constructions -- open finding KF-C19-ctor-partial is exactly where that fails); on success anything reachable may have changed
+            if m.ctx.branch(z3.Bool(fresh_name("construction_rejected"))):
+                # what a rejected construction may have done (cf. KF-C19-ctor-partial): re-parented any of the nodes handed to it (the parent id / field / index /
+                # xpath slots of any node other than the receiver are unknown afterwards) and registered previously detached descendants (the registry has only
+                # grown); the rejected node itself is registered last, so the receiver's id is still free
+                # (a construction with create_detached=True attaches nothing: no effect at all)
+                me = m.env["self"]
+                quiet = m.truth(kw["create_detached"]) if "create_detached" in kw else z3.BoolVal(False)
+                for gname in ("PID", "PF", "PI", "XP"):
+                    c_ = cell(m, gname)
+                    before = c_.value
+                    c_.value = before.sort.fresh(gname + "_after_rejection")
+                    m.ctx.assume(z3.Select(c_.value.term, me.term) == z3.Select(before.term, me.term))
+                    m.ctx.assume(z3.Implies(quiet, c_.value.term == before.term))
+                cn = cell(m, "NODES")
+                n_before = cn.value
+                cn.value = n_before.sort.fresh("NODES_after_rejection")
+                m.ctx.assume(z3.And(ext_n(cn.value.term, n_before.term), z3.Select(cn.value.term, nv.f_id(me.term)) == z3.Select(n_before.term, nv.f_id(me.term))))
+                m.ctx.assume(z3.Implies(quiet, cn.value.term == n_before.term))
+                raise RaiseSig(VExc("Exception"))
+            for gname in ("NODES", "PID", "PF", "PI", "XP"):
+                c_ = cell(m, gname)
+                c_.value = c_.value.sort.fresh(gname + "_after_ctor")
+            return REF.fresh("replacement")
+        if isinstance(func, VPy) and func.obj == ("setattr",) and isinstance(a[0], VU) and a[0].sort == REF:
+            nm = a[1].term.as_string() if isinstance(a[1], VStr) else a[1].obj
+            if nm in ("original_id", "id_collision_with"):
+                return NONE          # bookkeeping fields of the *new* node: not part of the modelled heap
+        return NotImplemented
+
+    def sub_hook(m, op, a, b):
+        return None
+
+    import ast as _ast
+
+    def binop_sets(m, op, a, b):
+        if isinstance(a, VPy) and isinstance(b, VPy) and isinstance(a.obj, tuple) and isinstance(b.obj, tuple) and a.obj[0] == "nameset" and b.obj[0] == "nameset":
+            return VPy(("nameset", "difference"))
+        return None
+
+    world.attr_hooks.insert(0, attr_r)
+    world.call_hooks.insert(0, call_r)
+    world.binop_hooks_sub = [binop_sets]
+    world.exc_parents["ASTNodeReplaceError"] = "Exception"
+    world.name_hooks.append(lambda m, n: VCls(n) if n in ("ASTNodeReplaceError",) else (VPy(("builtin", "fields")) if n == "fields" else None))
+    A(Contract(f"{LM}:AwareASTNode.parent_field", params={"self": "Ref"}, returns="Opt[Fld]", props=P18, globals=G, ensures=["result == mget(PF, self)"] + UNCH, note="property"))
+    A(Contract(f"{LM}:AwareASTNode.parent_index", params={"self": "Ref"}, returns="Opt[int]", props=P18, globals=G, ensures=["result == mget(PI, self)"] + UNCH, note="property"))
+    A(Contract(f"{LM}:AwareASTNode._replace_child", params={"self": "Ref", "old": "Ref", "field": "Fld", "index": "Opt[int]", "new": "Opt[Ref]"}, props=PB, globals=G,
+               modifies=["NODES", "PID", "PF", "PI", "XP"], trusted=True,
+               trusted_reason="splices the replacement into the parent's field value (setattr on a mutable dataclass, index shifting, content-id propagation): not modelled, bounded only (rt.c18)"))
+    SAME_AT_R = "mget(PID, r) == mget(old(PID), r) and mget(PF, r) == mget(old(PF), r) and mget(PI, r) == mget(old(PI), r)"
+    ATTACHED = "(mget(NODES, self.id) == self)"
+    A(Contract(f"{LM}:AwareASTNode.replace", params={"self": "Ref", "changes": "Kwargs"}, returns="Ref", props=P19, globals=G, ghost={"r": "Ref"},
+               modifies=["NODES", "PID", "PF", "PI", "XP"],
+               locals={"was_attached": "bool", "cur_parent": "Opt[Ref]", "cur_parent_field": "Opt[Fld]", "cur_parent_index": "Opt[int]"},
+               requires=[f"implies({ATTACHED}, children_point_back(PID, PF, PI, self, lkidsf(self)))",                     # C18 invariant at the receiver
+                         "implies(mget(PID, self) is not None and mget(NODES, mget(PID, self)) is not None, mget(NODES, mget(PID, self)).id == mget(PID, self) and mget(PF, self) is not None)",
+                         "not is_in(lkids(self), self)", "is_in(lkids(self), r) == has_child_node(lkidsf(self), r)"],
+               raises=[("ASTNodeReplaceError", "not change_keys_allowed(changes, self)")], may_raise=["Exception"],
+               exc_ensures=["implies(not change_keys_allowed(changes, self), NODES == old(NODES) and PID == old(PID) and PF == old(PF) and PI == old(PI) and XP == old(XP))",
+                            "mget(NODES, self.id) == mget(old(NODES), self.id)", "extends_n(NODES, old(NODES))",
+                            "implies(r == self or is_in(lkids(self), r), " + SAME_AT_R + ")"],
+               loops={1: Loop(inv=["mget(NODES, self.id) == mget(old(NODES), self.id)", "extends_n(NODES, old(NODES))", "seq1 == lkidsf(self)",
+                                   "children_point_back(old(PID), old(PF), old(PI), self, seq1)", "change_keys_allowed(changes, self)",
+                                   "implies(has_child_node(done1, r), " + SAME_AT_R + ")",
+                                   "implies(r == self and cur_parent is None, " + SAME_AT_R + ")",
+                                   "implies(cur_parent is not None, cur_parent == mget(old(NODES), mget(old(PID), self)) and cur_parent_field == mget(old(PF), self) "
+                                   "and cur_parent_index == mget(old(PI), self) and mget(old(PID), self) is not None)"])},
+               note="changes naming a forbidden or unknown field are rejected (ASTNodeReplaceError) before anything is touched; when the construction of the replacement is rejected -- "
+                    "after possibly having re-parented any node handed to it and registered detached descendants, which is how the legacy constructor fails (KF-C19-ctor-partial) -- "
+                    "the receiver is registered again under its id, the registry has at most grown, and the receiver and every one of its children have the parent id / field / index "
+                    "they had before the call (stated for an arbitrary node r; the xpath slot is not part of the statement). Relative to the C18 invariant at the receiver (its children "
+                    "point back to it, its parent entry is registered under the recorded id) and to the rejected construction not touching the receiver's own slots"))
     # ---- lemmas: the quantified meaning of shrinks_* and its four consequences ---------------------------------------------------
     lem = []
     a_d, b_d, y_d = z3.Const("a_hd", SC.z3()), z3.Const("b_hd", SC.z3()), z3.Const("y_hd", CPOS.z3())
@@ -539,7 +691,8 @@ def build():
         goal = z3.And(DE(e0, e0),
                       z3.Implies(z3.And(DE(e1, e0), z3.Select(e0, ke) == none_n, z3.Select(e1, ke) == none_n), DE(z3.Store(e1, ke, ve), e0)),
                       z3.Implies(z3.And(DE(e2, e1), DE(e1, e0)), DE(e2, e0)),
-                      z3.Implies(DE(e1, e0), z3.Or(z3.Select(e0, ke) == none_n, z3.Select(e1, ke) == z3.Select(e0, ke))))
+                      z3.Implies(DE(e1, e0), z3.Or(z3.Select(e0, ke) == none_n, z3.Select(e1, ke) == z3.Select(e0, ke))),
+                      z3.Implies(z3.And(DE(e1, z3.Store(e0, ke, none_n)), ve == z3.Select(e0, ke)), DE(z3.Store(e1, ke, ve), e0)))
         return [], goal
     lem.append(Lemma("extends_n-rules", [("all", ex_all)], PB))
     af, bf, yf = z3.Const("a_fs", SC.z3()), z3.Const("b_fs", SC.z3()), z3.Const("y_fs", CPOS.z3())
